@@ -200,13 +200,26 @@ def _empty(x: Any) -> bool:
 Diff = Dict[str, Any]
 
 
+def _is_named(o: Any) -> bool:
+    try:
+        return isinstance(getattr(o, "short_name", None), str)
+    except Exception:
+        return False
+
+
 def compare(a: Any, b: Any, path: Path, owner: Tuple[str, str], out: List[Diff],
-            depth: int = 0) -> None:
-    """Append one entry per differing leaf / list length / element type."""
+            depth: int = 0, named: str = "", rel: Tuple[str, ...] = ()) -> None:
+    """Append one entry per differing leaf / list length / element type.
+
+    `named` / `rel`: class of the nearest enclosing element that has a short name and the field
+    names leading from it to the object that owns the differing field.  They give the
+    categorical *context* of a difference inside anonymous sub-elements (a LIMIT of a PHYS-CONSTR
+    is not a LIMIT of a COMPU-SCALE); the context is empty if the owner itself is named."""
 
     def add(kind: str, va: Any, vb: Any) -> None:
-        out.append({"kind": kind, "cls": owner[0], "field": owner[1], "path": path_str(path),
-                    "first": _short(va), "second": _short(vb)})
+        ctx = (named + "." + ".".join(rel[:-1])) if len(rel) > 1 else ""
+        out.append({"kind": kind, "cls": owner[0], "field": owner[1], "ctx": ctx,
+                    "path": path_str(path), "first": _short(va), "second": _short(vb)})
 
     if depth > 60:
         return
@@ -214,23 +227,25 @@ def compare(a: Any, b: Any, path: Path, owner: Tuple[str, str], out: List[Diff],
         if not (is_dc(a) and is_dc(b)) or type(a).__name__ != type(b).__name__:
             add("attr-lost" if _empty(b) else "attr-altered", a, b)
             return
+        if _is_named(a):
+            named, rel = type(a).__name__, ()
         for f in dataclasses.fields(a):
             compare(getattr(a, f.name, None), getattr(b, f.name, None), path + (f.name,),
-                    (type(a).__name__, f.name), out, depth + 1)
+                    (type(a).__name__, f.name), out, depth + 1, named, rel + (f.name,))
         return
     if isinstance(a, (list, tuple)) and isinstance(b, (list, tuple)):
         if len(a) != len(b):
             add("attr-lost" if len(b) < len(a) else "attr-altered", f"{len(a)} item(s)",
                 f"{len(b)} item(s)")
         for i, (x, y) in enumerate(zip(a, b)):
-            compare(x, y, path + (i,), owner, out, depth + 1)
+            compare(x, y, path + (i,), owner, out, depth + 1, named, rel)
         return
     if isinstance(a, dict) and isinstance(b, dict):
         if set(a) != set(b):
             add("attr-altered", sorted(map(str, a)), sorted(map(str, b)))
         for k in a:
             if k in b:
-                compare(a[k], b[k], path + (k,), owner, out, depth + 1)
+                compare(a[k], b[k], path + (k,), owner, out, depth + 1, named, rel)
         return
     if not _leaf_equal(a, b):
         add("attr-lost" if (_empty(b) and not _empty(a)) else "attr-altered", a, b)
@@ -244,11 +259,11 @@ def compare_dbs(db1: Any, db2: Any) -> List[Diff]:
         c2 = {x.short_name: x for x in getattr(db2, t)}
         for n in c1:
             if n not in c2:
-                out.append({"kind": "attr-lost", "cls": "Database", "field": t,
+                out.append({"kind": "attr-lost", "cls": "Database", "field": t, "ctx": "",
                             "path": f"{t}.{n}", "first": n, "second": None})
         for n in c2:
             if n not in c1:
-                out.append({"kind": "attr-altered", "cls": "Database", "field": t,
+                out.append({"kind": "attr-altered", "cls": "Database", "field": t, "ctx": "",
                             "path": f"{t}.{n}", "first": None, "second": n})
         for n in c1:
             if n in c2:
@@ -270,11 +285,14 @@ def _short(x: Any) -> Any:
     return repr(x)[:200]
 
 
-def diff_keys(diffs: List[Diff]) -> Dict[Tuple[str, str, str], Diff]:
-    """first diff per (kind, class, field)"""
-    res: Dict[Tuple[str, str, str], Diff] = {}
+def diff_keys(diffs: List[Diff]) -> Dict[Tuple[str, ...], Diff]:
+    """first diff per (kind, class, field[, context])"""
+    res: Dict[Tuple[str, ...], Diff] = {}
     for d in diffs:
-        res.setdefault((d["kind"], d["cls"], d["field"]), d)
+        k: Tuple[str, ...] = (d["kind"], d["cls"], d["field"])
+        if d.get("ctx"):
+            k += (d["ctx"],)
+        res.setdefault(k, d)
     return res
 
 
